@@ -211,6 +211,7 @@ func c02RunStorageSync(co *caseOut, in c02Input) error {
 	}
 	bc.Close()
 	bs := rec.batches
+	c02ReportTorn(rec, viol, nil)
 	nItemBatches := 0
 	for _, x := range bs {
 		stages = append(stages, c02StageOf(x))
